@@ -102,7 +102,16 @@ func RuleDProcessOrder(c *core.Ctx) {
 		}
 		reads := kindReads(p, fn, func(v ssa.Value) bool { return v == ssa.Value(dayParam) })
 		if len(reads) == 5 {
-			// and it invokes callbacks loaded from a Processor
+			// and it invokes callbacks loaded from a Processor: its receiver is one
+			recvIsProcessor := false
+			if recv := fn.Signature.Recv(); recv != nil {
+				if pt, ok := recv.Type().Underlying().(*types.Pointer); ok && isNamed(pt.Elem(), p.NamedType(pkgJournal, "Processor")) {
+					recvIsProcessor = true
+				}
+			}
+			if !recvIsProcessor {
+				continue // e.g. a printer of the day's directives
+			}
 			if proc != nil {
 				c.Ob(rule, "day processor:unique", fn.Pos(), core.FuncName(fn), core.Undecided, "more than one function reads all five per-kind slices of its Day parameter")
 			}
